@@ -1,2 +1,2 @@
-import EchoModel.Wire
 import EchoModel.C14
+import EchoModel.Wire
